@@ -2759,6 +2759,21 @@ def _hash_variants():
                   'dependent variables', 'value type'):
         v[label] = (mv[label][0], label)
     v.update(_hash_field_variants())
+
+    # mappings of the model built in another insertion order (same content): dependent variables of a model with
+    # two of them, and with them the observation transformations
+    def two_dvs():
+        return mo.set_direct_effect(m(), 'linear')
+
+    def two_dvs_reversed():
+        x = two_dvs()
+        kw = {'dependent_variables': dict(reversed(list(x.dependent_variables.items())))}
+        if len(x.observation_transformation) > 1:
+            kw['observation_transformation'] = dict(reversed(list(x.observation_transformation.items())))
+        return x.replace(**kw)
+
+    v['two dvs'] = (two_dvs, 'two dvs')
+    v['two dvs:mappings built in the other order'] = (two_dvs_reversed, 'two dvs')
     return v
 
 
